@@ -63,6 +63,8 @@ type PredAST struct {
 	Bd  bool   `json:"bd"`
 	Lo  int    `json:"lo"`
 	Hi  int    `json:"hi"`
+	Lb  string `json:"lb"`
+	Ub  string `json:"ub"`
 }
 type ObjAST struct {
 	Ck  string `json:"ck"`
@@ -77,6 +79,8 @@ type ObjAST struct {
 	Bd  bool   `json:"bd"`
 	Lo  int    `json:"lo"`
 	Hi  int    `json:"hi"`
+	Lb  string `json:"lb"`
+	Ub  string `json:"ub"`
 }
 type ClauseAST struct {
 	Opt bool    `json:"opt"`
@@ -182,9 +186,7 @@ func dumpClauses(stm *semantic.Statement) []ClauseAST {
 		a.P.Ab = c.PAnchorBinding
 		a.P.Bd = c.PID != "" && c.PTemporal && c.PAnchorBinding == ""
 		a.P.Lo, a.P.Hi = rankOrNeg(c.PLowerBound), rankOrNeg(c.PUpperBound)
-		if c.PLowerBoundAlias != "" || c.PUpperBoundAlias != "" {
-			a.P.Lo = -2
-		}
+		a.P.Lb, a.P.Ub = c.PLowerBoundAlias, c.PUpperBoundAlias
 		if c.O != nil {
 			oc := u.ObjectCell(c.O)
 			a.O.Ck, a.O.Cv = oc.K, oc.V
@@ -199,9 +201,7 @@ func dumpClauses(stm *semantic.Statement) []ClauseAST {
 		a.O.Ab = c.OAnchorBinding
 		a.O.Bd = c.OID != "" && c.OTemporal && c.OAnchorBinding == ""
 		a.O.Lo, a.O.Hi = rankOrNeg(c.OLowerBound), rankOrNeg(c.OUpperBound)
-		if c.OLowerBoundAlias != "" || c.OUpperBoundAlias != "" {
-			a.O.Lo = -2
-		}
+		a.O.Lb, a.O.Ub = c.OLowerBoundAlias, c.OUpperBoundAlias
 		res = append(res, a)
 	}
 	return res
